@@ -13,7 +13,9 @@ RULE = (
     "contest}) x (manual record in the same set + unfindable) x (no tally pool, pooled pool P, pooled pool Q, unpooled pool "
     "label R) x (CVR is a phantom), grown card by card, x style on/off x assorter kind (plurality, super-majority 2/3, IRV "
     "NEB, IRV NEN built through make_assertions_from_json); the documented workflow pool_contests -> add_pool_contests -> "
-    "set_tally_pool_means -> set_margin_from_cvrs -> overstatement_assorter is driven on fresh real objects and "
+    "set_tally_pool_means -> set_margin_from_cvrs -> overstatement_assorter is driven on fresh real objects (and, for "
+    "populations with pooled cards, once more without the pool_contests/add_pool_contests step, so that a pooled batch holds "
+    "cards of several styles) and "
     "mean(B) - 1/2 is compared with (2 mean(A) - 1) / (2(2u - v)), A from the reference assorter (unfindable -> 0, missing "
     "contest under style -> 0), u, v and the pool means taken from the library's own attributes.  Non-trivial = state with "
     "a discrepancy, an unfindable card or a pooled card; distinct = distinct (kind, style, multiset)"
@@ -28,9 +30,9 @@ def bounds(tier):
             "alphabet sizes": {k: [len(s3.alphabet(k)), len(s3.alphabet(k, True))] for k in s3.KINDS}, "style": [True, False], "kinds": s3.KINDS}
 
 
-def judge(kind, cards, use_style, feats=None):
+def judge(kind, cards, use_style, feats=None, add_pool=True):
     try:
-        w = s3.workflow(kind, cards, use_style)
+        w = s3.workflow(kind, cards, use_style, add_pool=add_pool)
     except Exception as e:  # noqa
         return [(f"C03|{kind}|workflow-exception|{type(e).__name__}", f"workflow raised {type(e).__name__}: {str(e)[:80]}")], None
     under = w["under"]
@@ -95,9 +97,13 @@ def run_shard(sh, rec):
         cards = [alpha[a] for a in ms]
         rec.state()
         rec.trans()
-        for style in (True, False):
+        for style, add_pool in ((True, True), (False, True), (True, False), (False, False)):
+            if not add_pool and not any(c[2] in ("P", "Q") for c in cards):
+                continue  # nothing is pooled: the preparation step changes nothing
             feats = set()
-            v, o = judge(kind, cards, style, feats)
+            v, o = judge(kind, cards, style, feats, add_pool)
+            if not add_pool:
+                rec.vac("states_without_add_pool_contests")
             rec.evals()
             for f in feats:
                 rec.vac(f)
@@ -107,7 +113,7 @@ def run_shard(sh, rec):
             if last:
                 rec.trace()
             for key, what in v:
-                rec.violate(key, what, {"kind": kind, "cards": [list(c) for c in cards], "style": style})
+                rec.violate(key, what, {"kind": kind, "cards": [list(c) for c in cards], "style": style, "add_pool": add_pool})
             if rec.want_sample((kind, ms, reduced, style)):
                 rec.sample({"assorter": kind, "style": style, "cards": s3.show(kind, cards), "mean(B)-1/2, identity rhs, margin": o})
 
@@ -126,4 +132,4 @@ def explore(tier, seed):
 
 
 def run_case(case):
-    return judge(case["kind"], [tuple(c) for c in case["cards"]], case["style"])[0]
+    return judge(case["kind"], [tuple(c) for c in case["cards"]], case["style"], None, case.get("add_pool", True))[0]
